@@ -268,6 +268,10 @@ class AcStatusDecoder(
             )
             self._mismatch_logged = True
 
+        # Skip the non-repeating ("normal") data announced by the console; no
+        # fields are currently defined for it.
+        buffer = buffer[header.non_repeat_length :]
+
         acs: list[AcStatusData] = []
         for _ in range(header.repeat_count):
             (
